@@ -1,5 +1,10 @@
 import Uom.Proofs.OpsExact
 import Uom.Proofs.KernelFloat
+import Uom.Proofs.BodyEq.Conv
+import Uom.Proofs.BodyEq.Arith
+import Uom.Proofs.BodyEq.Mixed
+import Uom.Proofs.BodyEq.Cmp
+import Uom.Proofs.FloatOps
 /-!
 # C06 — results do not depend on the base units operands happen to be stored in
 
@@ -80,5 +85,108 @@ theorem changeBase_float (f : Fmt) (hp : 1 ≤ f.p) (l r v : Fl) (H : Proofs.Cha
 
 /-- non-vacuity: 2 m (SI) + 3 m stored in kilometre base units (0.003, base factor 1000) = 5 m -/
 example : (2 + changeBase ratS 1 1000 (3 / 1000) : Rat) * 1 = 2 * 1 + (3 / 1000) * 1000 := add_phys 1 1000 2 (3/1000) one_ne_zero
+
+/-! ### floats: proved bounds for the mixed-base operators (soft-float theorems, no rounding axiom)
+
+`B = b·R/L` is the right operand's physical magnitude expressed in the left operand's base units.
+`ChangeBaseOk` says no intermediate of `change_base` overflows or falls into the subnormal range. -/
+
+/-- `a * change_base(b)` is within `4u` of the exact product of the magnitudes -/
+theorem mul_float (f : Fmt) (h4 : 4 ≤ f.p) (l r a b : Fl) (H : Proofs.ChangeBaseOk f l r b) (ha : a.isFinite = true)
+    (hN : Proofs.nmin f ≤ |a.toRat * Fl.toRat (changeBase (flS f) l r b)|)
+    (hfin : (Fl.mul f a (changeBase (flS f) l r b)).isFinite = true) :
+    |(Fl.mul f a (changeBase (flS f) l r b)).toRat - a.toRat * (b.toRat * r.toRat / l.toRat)| ≤
+      4 * Proofs.uro f * |a.toRat * (b.toRat * r.toRat / l.toRat)| :=
+  Proofs.mul_mixed_abs_le h4 H ha hN hfin
+
+theorem div_float (f : Fmt) (h4 : 4 ≤ f.p) (l r a b : Fl) (H : Proofs.ChangeBaseOk f l r b) (ha : a.isFinite = true)
+    (hN : Proofs.nmin f ≤ |a.toRat / Fl.toRat (changeBase (flS f) l r b)|)
+    (hfin : (Fl.div f a (changeBase (flS f) l r b)).isFinite = true) :
+    |(Fl.div f a (changeBase (flS f) l r b)).toRat - a.toRat / (b.toRat * r.toRat / l.toRat)| ≤
+      4 * Proofs.uro f * |a.toRat / (b.toRat * r.toRat / l.toRat)| :=
+  Proofs.div_mixed_abs_le h4 H ha hN hfin
+
+/-- `a + change_base(b)`: within `u·(3|B| + |A+B|)` of the exact sum (cancellation cannot be better
+    than relative to the converted operand) -/
+theorem add_float (f : Fmt) (h4 : 4 ≤ f.p) (l r a b : Fl) (H : Proofs.ChangeBaseOk f l r b) (ha : Proofs.Ok f a)
+    (hfin : (Fl.add f a (changeBase (flS f) l r b)).isFinite = true) :
+    |(Fl.add f a (changeBase (flS f) l r b)).toRat - (a.toRat + b.toRat * r.toRat / l.toRat)| ≤
+      Proofs.uro f * (3 * |b.toRat * r.toRat / l.toRat| + |a.toRat + b.toRat * r.toRat / l.toRat|) :=
+  Proofs.add_mixed_abs_le h4 H ha hfin
+
+theorem sub_float (f : Fmt) (h4 : 4 ≤ f.p) (l r a b : Fl) (H : Proofs.ChangeBaseOk f l r b) (ha : Proofs.Ok f a)
+    (hfin : (Fl.sub f a (changeBase (flS f) l r b)).isFinite = true) :
+    |(Fl.sub f a (changeBase (flS f) l r b)).toRat - (a.toRat - b.toRat * r.toRat / l.toRat)| ≤
+      Proofs.uro f * (3 * |b.toRat * r.toRat / l.toRat| + |a.toRat - b.toRat * r.toRat / l.toRat|) :=
+  Proofs.sub_mixed_abs_le h4 H ha hfin
+
+/-- comparisons: whenever the two physical magnitudes differ by more than `4u·max(|A|,|B|)`, the
+    mixed-base comparison returns the exact order of the magnitudes -/
+theorem cmp_float (f : Fmt) (h4 : 4 ≤ f.p) (l r a b : Fl) (H : Proofs.ChangeBaseOk f l r b) (ha : a.isFinite = true)
+    (hgap : 4 * Proofs.uro f * max |a.toRat| |b.toRat * r.toRat / l.toRat| <
+      |a.toRat - b.toRat * r.toRat / l.toRat|) :
+    Fl.cmp a (changeBase (flS f) l r b) =
+      some (if a.toRat < b.toRat * r.toRat / l.toRat then -1
+        else if a.toRat = b.toRat * r.toRat / l.toRat then 0 else 1) :=
+  Proofs.cmp_mixed_sound h4 H ha hgap
+
+/-! ### tie to the source: the function bodies regenerated from /repo/src on this run
+
+`Gen.Body.*` below is what the translator read from the Rust source just now; `Body.run` evaluates it
+over any storage type.  These theorems state the property's code path *for the regenerated bodies*:
+they fail to check as soon as the source computes something else. -/
+section SourceTie
+open Uom.Body Uom.Gen.Body
+
+theorem src_change_base (N : NumTy) (env : Env N) (v : N.S.V) :
+    run N env system_free_change_base [argV v] = argV (changeBase N.S (env.bf .Ul .D) (env.bf .Ur .D) v) :=
+  BodyEq.change_base_eq N env v
+
+/-- the regenerated `Add<Quantity<D, Ur, V>> for Quantity<D, Ul, V>` over exact rationals: the result,
+    read with the left operand's base factor, is the sum of the two physical magnitudes -/
+theorem src_add_phys (env : Env bigRatTy) (a b : Rat) (hl : env.bf .Ul .D ≠ 0) :
+    ∃ c, run bigRatTy env system_Add_Quantity_for_Quantity_add_auto [argQ a, argQ b] = argQ c ∧
+      c * env.bf .Ul .D = a * env.bf .Ul .D + b * env.bf .Ur .D :=
+  ⟨_, rfl, add_phys _ _ a b hl⟩
+
+theorem src_sub_phys (env : Env bigRatTy) (a b : Rat) (hl : env.bf .Ul .D ≠ 0) :
+    ∃ c, run bigRatTy env system_Sub_Quantity_for_Quantity_sub_auto [argQ a, argQ b] = argQ c ∧
+      c * env.bf .Ul .D = a * env.bf .Ul .D - b * env.bf .Ur .D :=
+  ⟨_, rfl, sub_phys _ _ a b hl⟩
+
+/-- `*`: the right operand is converted over *its own* dimension `Dr` -/
+theorem src_mul_phys (env : Env bigRatTy) (ll a b : Rat) (hl : env.bf .Ul .Dr ≠ 0) :
+    ∃ c, run bigRatTy env system_Mul_Quantity_for_Quantity_mul_auto [argQ a, argQ b] = argQ c ∧
+      c * (ll * env.bf .Ul .Dr) = (a * ll) * (b * env.bf .Ur .Dr) :=
+  ⟨_, rfl, mul_phys ll _ _ a b hl⟩
+
+/-- every mixed-base arithmetic and comparison form is `binOpOn`: the left stored value, the raw
+    operation, `change_base` of the right stored value (for every storage type) -/
+theorem src_forms (N : NumTy) (env : Env N) (a b : N.S.V) :
+    run N env system_Add_Quantity_for_Quantity_add_auto [argQ a, argQ b] = .q (binOpOn N .add (env.bf .Ul .D) (env.bf .Ur .D) a b) ∧
+    run N env system_Sub_Quantity_for_Quantity_sub_auto [argQ a, argQ b] = .q (binOpOn N .sub (env.bf .Ul .D) (env.bf .Ur .D) a b) ∧
+    run N env system_Rem_Quantity_for_Quantity_rem_auto [argQ a, argQ b] = .q (binOpOn N .rem (env.bf .Ul .D) (env.bf .Ur .D) a b) ∧
+    run N env system_Mul_Quantity_for_Quantity_mul_auto [argQ a, argQ b] = .q (binOpOn N .mul (env.bf .Ul .Dr) (env.bf .Ur .Dr) a b) ∧
+    run N env system_Div_Quantity_for_Quantity_div_auto [argQ a, argQ b] = .q (binOpOn N .div (env.bf .Ul .Dr) (env.bf .Ur .Dr) a b) ∧
+    run N env system_AddAssign_Quantity_for_Quantity_add_assign_auto [argQ a, argQ b] = .v (binOpOn N .adda (env.bf .Ul .D) (env.bf .Ur .D) a b) ∧
+    run N env system_SubAssign_Quantity_for_Quantity_sub_assign_auto [argQ a, argQ b] = .v (binOpOn N .suba (env.bf .Ul .D) (env.bf .Ur .D) a b) ∧
+    run N env system_RemAssign_Quantity_for_Quantity_rem_assign_auto [argQ a, argQ b] = .v (binOpOn N .rema (env.bf .Ul .D) (env.bf .Ur .D) a b) ∧
+    run N env system_PartialEq_Quantity_for_Quantity_eq_auto [argQ a, argQ b] = .v (binOpOn N .eq (env.bf .Ul .D) (env.bf .Ur .D) a b) ∧
+    run N env system_PartialOrd_Quantity_for_Quantity_lt_auto [argQ a, argQ b] = .v (binOpOn N .lt (env.bf .Ul .D) (env.bf .Ur .D) a b) ∧
+    run N env system_PartialOrd_Quantity_for_Quantity_partial_cmp_auto [argQ a, argQ b] = .v (binOpOn N .pcmp (env.bf .Ul .D) (env.bf .Ur .D) a b) :=
+  ⟨rfl, rfl, rfl, rfl, rfl, rfl, rfl, rfl, rfl, rfl, rfl⟩
+
+/-- `x.mul_add(a, b)` and `x.hypot(y)` convert each operand over its own dimension into the base units of `x` -/
+theorem src_mul_add (N : NumTy) (env : Env N) (x a b : N.S.V) :
+    run N env system_inherent_Quantity_mul_add_auto [argQ x, argQ a, argQ b]
+      = (env.fwd m_mul_add [argV x, argV (changeBase N.S (env.bf .U .Da) (env.bf .Ua .Da) a),
+          argV (changeBase N.S (env.bf .U .Dsum) (env.bf .Ub .Dsum) b)]).asQuantity :=
+  BodyEq.mul_add_auto_eq N env x a b
+theorem src_hypot (N : NumTy) (env : Env N) (a b : N.S.V) :
+    run N env system_inherent_Quantity_hypot_auto [argQ a, argQ b]
+      = (env.fwd m_hypot [argV a, argV (changeBase N.S (env.bf .U .D) (env.bf .Ur .D) b)]).asQuantity :=
+  BodyEq.hypot_auto_eq N env a b
+
+end SourceTie
 
 end Uom.C06
